@@ -1,6 +1,6 @@
 (* C08 — reading from a grid never changes what any grid reports. Statements only. *)
 From Coq Require Import String.
-From Verif Require Import Base C08 C08_proofs C08_spawn C08_spawn_proofs.
+From Verif Require Import Base C08 C08_proofs C08_spawn C08_spawn_proofs C08_reach_proofs.
 
 (* invariant over every finite history of read-only operations: every stored variable is the
    canonical function of the source *)
@@ -89,3 +89,26 @@ Theorem C08_copy_snapshot : forall w i s, nth_error (w_grids w) i = Some s ->
   nth_error (w_grids (c08_wstep w (WCopy i))) i = Some s.
 Proof. exact copy_snapshot. Qed.
 Print Assumptions C08_copy_snapshot.
+
+(* ---- a read derives only what it needs ---- *)
+(* repeating any read-only operation changes nothing *)
+Theorem C08_step_idempotent : forall s o, c08_step (c08_step s o) o = c08_step s o.
+Proof. exact step_idempotent. Qed.
+Print Assumptions C08_step_idempotent.
+
+(* after any history the dataset holds what it held before plus members of the dependency closures of the variables that
+   were asked for: an export gains exactly "derived variables computed so far", never anything unrelated *)
+Theorem C08_only_requested_derived : forall ops s v,
+  c08_present (c08_run s ops) v = true -> c08_present s v = true \/ In v (flat_map c08_requested ops).
+Proof. exact run_only_requested. Qed.
+Print Assumptions C08_only_requested_derived.
+
+(* exports and pure queries (to_xarray, trees, conversions, isel/subset/get_dual) store nothing in the grid *)
+Theorem C08_pure_ops_store_nothing : forall s o, o = OpEncodeUgrid \/ o = OpPure -> c08_step s o = s.
+Proof. exact pure_ops_store_nothing. Qed.
+Print Assumptions C08_pure_ops_store_nothing.
+
+(* no variable is ever stored twice: one entry per name after every history *)
+Theorem C08_names_stay_unique : forall ops s, NoDup (c08_names s) -> NoDup (c08_names (c08_run s ops)).
+Proof. exact run_nodup. Qed.
+Print Assumptions C08_names_stay_unique.
